@@ -17,7 +17,10 @@ import (
 type sessEnv struct {
 	run    *sessRun
 	server *srv.Server
-	conn   *srv.Conn
+	wssrv  *srv.WSServer
+	conn   srvStream
+	ws     bool
+	wsBase int
 	client *xmpp.Client
 	router *xmpp.Router
 	w      *tr.Writer
@@ -39,6 +42,7 @@ type envOpts struct {
 	Partial   bool
 	KeepOpen  bool
 	FailOnce  bool
+	WS        bool // XMPP over WebSocket instead of TCP
 }
 
 func newSessEnv(w *tr.Writer, tid int, o envOpts) (*sessEnv, error) {
@@ -46,11 +50,21 @@ func newSessEnv(w *tr.Writer, tid int, o envOpts) (*sessEnv, error) {
 	run.cond = sync.NewCond(&run.mu)
 	curRun.Store(run)
 	env := &sessEnv{run: run, w: w, before: libGoroutines(), rdDone: make(chan struct{})}
-	server, err := srv.Listen()
-	if err != nil {
-		return nil, err
+	addr := ""
+	env.ws = o.WS
+	if o.WS {
+		wss, err := srv.ListenWS()
+		if err != nil {
+			return nil, err
+		}
+		env.wssrv, addr = wss, wss.Addr
+	} else {
+		server, err := srv.Listen()
+		if err != nil {
+			return nil, err
+		}
+		env.server, addr = server, server.Addr
 	}
-	env.server = server
 	env.router = xmpp.NewRouter()
 	if o.Handler != nil {
 		env.router.NewRoute().HandlerFunc(o.Handler)
@@ -60,7 +74,7 @@ func newSessEnv(w *tr.Writer, tid int, o envOpts) (*sessEnv, error) {
 		ka = time.Hour
 	}
 	cfg := &xmpp.Config{
-		TransportConfiguration: xmpp.TransportConfiguration{Address: server.Addr, ConnectTimeout: 1},
+		TransportConfiguration: xmpp.TransportConfiguration{Address: addr, ConnectTimeout: 1},
 		Jid:                    "test@localhost/res",
 		Credential:             xmpp.Password("secret"),
 		Insecure:               true,
@@ -87,17 +101,28 @@ func newSessEnv(w *tr.Writer, tid int, o envOpts) (*sessEnv, error) {
 		return nil
 	})
 	type negOut struct {
-		conn *srv.Conn
+		conn srvStream
 		err  error
 	}
 	negc := make(chan negOut, 1)
+	nopts := srv.NegotiateOpts{SM: o.SM, SMID: sessSMID, Resume: true, StreamID: "sid-1", Jid: "test@localhost/res"}
 	go func() {
-		conn, err := server.Accept(5 * time.Second)
+		if o.WS {
+			conn, err := env.wssrv.Accept(5 * time.Second)
+			if err != nil {
+				negc <- negOut{nil, err}
+				return
+			}
+			_, err = conn.NegotiateWS(nopts, 5*time.Second)
+			negc <- negOut{conn, err}
+			return
+		}
+		conn, err := env.server.Accept(5 * time.Second)
 		if err != nil {
 			negc <- negOut{nil, err}
 			return
 		}
-		_, err = conn.Negotiate(srv.NegotiateOpts{SM: o.SM, SMID: sessSMID, Resume: true, StreamID: "sid-1", Jid: "test@localhost/res"}, 5*time.Second)
+		_, err = conn.Negotiate(nopts, 5*time.Second)
 		negc <- negOut{conn, err}
 	}()
 	cerr := client.Connect()
@@ -110,6 +135,7 @@ func newSessEnv(w *tr.Writer, tid int, o envOpts) (*sessEnv, error) {
 		return nil, fmt.Errorf("precondition: session could not be established (client: %v, server: %v)", cerr, neg.err)
 	}
 	env.conn = neg.conn
+	env.wsBase = run.get("ws.write")
 	run.mu.Lock()
 	run.bytesRead = run.bytesWritten
 	run.failAt = o.FailWrite
@@ -146,6 +172,7 @@ func (env *sessEnv) startReader() {
 			}
 			env.run.mu.Lock()
 			env.run.bytesRead += int64(len(e.Raw))
+			env.run.framesRead++
 			env.run.cond.Broadcast()
 			env.run.mu.Unlock()
 		}
@@ -155,6 +182,9 @@ func (env *sessEnv) startReader() {
 // drained waits until the server has read everything the client wrote.
 func (env *sessEnv) drained(timeout time.Duration) bool {
 	return env.run.waitFor(timeout, func(c map[string]int) bool {
+		if env.ws {
+			return env.run.framesRead >= c["ws.write"]-env.wsBase
+		}
 		return env.run.bytesRead >= env.run.bytesWritten || env.run.faulted
 	})
 }
@@ -172,6 +202,9 @@ func (env *sessEnv) teardown() {
 func (env *sessEnv) close() {
 	if env.server != nil {
 		env.server.Close()
+	}
+	if env.wssrv != nil {
+		env.wssrv.Close()
 	}
 	env.run.mu.Lock()
 	cc := env.run.conn
@@ -195,6 +228,10 @@ func (env *sessEnv) reconnect(o envOpts) error {
 	}
 	negc := make(chan negOut, 1)
 	go func() {
+		if env.server == nil {
+			negc <- negOut{nil, fmt.Errorf("reconnect: TCP only")}
+			return
+		}
 		conn, err := env.server.Accept(5 * time.Second)
 		if err != nil {
 			negc <- negOut{nil, err}
